@@ -211,13 +211,13 @@ func (d *disconnectHandler) handleGracePeriodExpired() {
 			)...,
 		)
 
-		d.election.becomeFollower()
+		wasLeader := d.election.becomeFollower()
 
 		d.election.mu.RLock()
 		onDemote := d.election.onDemote
 		d.election.mu.RUnlock()
 
-		if onDemote != nil {
+		if wasLeader && onDemote != nil {
 			log.Info("leader_demoted",
 				append(d.election.logWithContext(d.election.ctx),
 					zap.String("reason", "connection_loss"),
@@ -346,13 +346,13 @@ func (e *kvElection) handleReconnectVerificationFailed(err error) {
 			)...,
 		)
 
-		e.becomeFollower()
+		wasLeader := e.becomeFollower()
 
 		e.mu.RLock()
 		onDemote := e.onDemote
 		e.mu.RUnlock()
 
-		if onDemote != nil {
+		if wasLeader && onDemote != nil {
 			log.Info("leader_demoted",
 				append(e.logWithContext(e.ctx),
 					zap.String("reason", "reconnect_verification_failed"),
